@@ -5,6 +5,7 @@ value with Python list semantics applied to the input value.  Counterexamples ar
 built libawkward (akrun) on real arrays."""
 import itertools, re, z3
 from . import runner, nodeh, fullnative
+from .llbmc import same_off as _same_off
 from .nodeh import NodeCtx, BV, Elem, NONE, compare, decode, value, concrete, SRC
 from .mharness import mdischarge, module_of
 from .oracle import guard
@@ -479,7 +480,7 @@ def _jobs_for(prop, tier):
         return [j for j in jobs_option_below(tier) if j[1][3] == 'combinations'] + jobs_combinations(tier) + jobs_axis0(tier, 'combinations') + jobs_record_below(tier, ('combinations',))
     if prop == 'C03':
         return jobs_c03(tier) + jobs_option_reduce(tier) + jobs_axis(tier, ('reduce',)) + jobs_reduce_nonlocal(tier) + jobs_unmasked_passthrough(('reduce_next',)) + jobs_record_reduce(tier)
-    return {'C02': (lambda t: jobs_c02(t) + jobs_numpy_toregular(t) + jobs_regular_getitem_jagged(t) + jobs_list_asslice(t) + jobs_indexed_widths(t)), 'C03': jobs_c03, 'C04': (lambda t: jobs_c04(t) + jobs_numpy_toregular(t)), 'C06': (lambda t: jobs_c06(t) + jobs_axis(t, ('sort', 'argsort')) + jobs_numpy_sort(t) + jobs_sort_nonlocal(t) + jobs_option_sort(t) + jobs_option_sort_above(t) + jobs_option_argsort(t) + jobs_string_argsort(t) + jobs_unmasked_passthrough(('sort_next', 'argsort_next'))), 'C08': (lambda t: jobs_c08(t) + jobs_numpy(t) + jobs_numpy_types(t) + jobs_union(t) + jobs_reverse_merge(t) + jobs_record_merge(t) + jobs_list_merge(t) + [j for j in jobs_record_named(t) if j[0] is h_record_mergemany_named] + jobs_merge_union(t) + jobs_union_ops(t)), 'C17': (lambda t: jobs_c17(t) + jobs_record_keys(t) + jobs_record_key_at(t) + jobs_node_form(t) + jobs_numpy_form(t)), 'C12': (lambda t: jobs_numpy(t) + jobs_numpy_astype(t) + [(h_index_alloc, (), 900)] + [(h_axis0, (L_, 'combinations', n_, True), 900) for L_, n_ in ((1, 2), (2, 3), (1, 3), (0, 2))] + [j for j in jobs_numpy_getitem(t) if j[1][3] == 'array']), 'C10': (lambda t: jobs_c10(t) + [j for j in jobs_record_named(t) if j[0] is h_record_field_key] + jobs_project(t) + [j for j in jobs_option_below(t) if j[1][3] in ('getitem_field', 'getitem_fields')] + jobs_record_setitem(t) + jobs_record_key_at(t)), 'C05': jobs_c05, 'C09': jobs_c09}.get(prop, lambda t: [])(tier)
+    return {'C02': (lambda t: jobs_c02(t) + jobs_numpy_toregular(t) + jobs_regular_getitem_jagged(t) + jobs_list_asslice(t) + jobs_indexed_widths(t)), 'C03': jobs_c03, 'C04': (lambda t: jobs_c04(t) + jobs_numpy_toregular(t)), 'C06': (lambda t: jobs_c06(t) + jobs_axis(t, ('sort', 'argsort')) + jobs_numpy_sort(t) + jobs_sort_nonlocal(t) + jobs_option_sort(t) + jobs_option_sort_above(t) + jobs_option_argsort(t) + jobs_string_argsort(t) + jobs_unmasked_passthrough(('sort_next', 'argsort_next'))), 'C08': (lambda t: jobs_c08(t) + jobs_numpy(t) + jobs_numpy_types(t) + jobs_union(t) + jobs_reverse_merge(t) + jobs_record_merge(t) + jobs_list_merge(t) + [j for j in jobs_record_named(t) if j[0] is h_record_mergemany_named] + jobs_merge_union(t) + jobs_union_ops(t)), 'C17': (lambda t: jobs_c17(t) + jobs_record_keys(t) + jobs_record_key_at(t) + jobs_node_form(t) + jobs_numpy_form(t) + jobs_record_form(t)), 'C12': (lambda t: jobs_numpy(t) + jobs_numpy_astype(t) + [(h_index_alloc, (), 900)] + [(h_axis0, (L_, 'combinations', n_, True), 900) for L_, n_ in ((1, 2), (2, 3), (1, 3), (0, 2))] + [j for j in jobs_numpy_getitem(t) if j[1][3] == 'array']), 'C10': (lambda t: jobs_c10(t) + [j for j in jobs_record_named(t) if j[0] is h_record_field_key] + jobs_project(t) + [j for j in jobs_option_below(t) if j[1][3] in ('getitem_field', 'getitem_fields')] + jobs_record_setitem(t) + jobs_record_key_at(t)), 'C05': jobs_c05, 'C09': jobs_c09}.get(prop, lambda t: [])(tier)
 
 
 # ------------------------------------------------------------------------------------------------ C01: getitem_next of list nodes
@@ -5741,7 +5742,7 @@ def h_numpy_form(shape, dtype):
         bc = [qq for gg, qq in nodeh.ptr_cases(b[0]) if qq.obj is not None] if b else []
         ec = [qq for gg, qq in nodeh.ptr_cases(e[0]) if qq.obj is not None] if e else []
         if not inner:
-            obls.append(('no inner dimensions', z3.And(g, z3.BoolVal(bool(bc) and bool(ec) and not nodeh.same_off(bc[0].off, ec[0].off)))))
+            obls.append(('no inner dimensions', z3.And(g, z3.BoolVal(bool(bc) and bool(ec) and not _same_off(bc[0].off, ec[0].off)))))
         elif not bc or not ec or not isinstance(bc[0].off, int) or not isinstance(ec[0].off, int):
             obls.append(('the inner shape can be read back', g))
         else:
@@ -5786,6 +5787,99 @@ def jobs_numpy_form(tier):
     if tier != 'quick':
         q += [((1, 2, 3), 'float64'), ((2, 1), 'bool'), ((4,), 'uint32'), ((0, 3), 'int64')]
     return [(h_numpy_form, a, 900) for a in q]
+
+
+@guard
+def h_record_form(names, nfields):
+    """RecordArray::form: a RecordForm that shares the array's field names (none for a tuple) and holds, position by position, what each field
+    content answers as its own form - as many as there are fields, in declaration order"""
+    named = names is not None
+    nc = NodeCtx(['REC', 'IA', 'IDX', 'CNT', 'UTL', 'KD', 'IDS'], [], unwind=max(16, 6 * nfields + 12))
+    nc.m.eng.stubs.update(string_stubs(nc))
+    if named:
+        this, vals, lens = build_named_record(nc, tuple(names), 2)
+    else:
+        this, vals, lens = build_record(nc, nfields, 2)
+    from .mharness import module_of as _mo
+    foffs, fsize, fal, ffields = _mo(SRC['REC']).types.struct_layout('%"class.awkward::RecordForm"')
+    seen = []
+    BASE = 1 << 32
+
+    def s_form(eng, fr, ins, st, name, argv):
+        sret, selfp, mat = argv
+        nm, info = nc.content_info(selfp, st, eng)
+        item = eng.new_record(st.mem, eng.fresh_name('contentform'), 16, tag='heap')
+        st.mem.o[item.obj].cells[item.off] = (Ptr('fakevt', 0), 8)
+        seen.append(dict(pc=st.pc, item=item, first=z3.Select(info['atoms'], BV(0))))
+        nc._ret(st, sret, item)
+        return None
+    nc.m.eng.stubs['vf$slot%d' % nc.slot('4formEb')] = s_form
+    nc.m.record('ret', {})
+    out = nc.m.call('_ZNK7awkward11RecordArray4formEb', [Ptr('ret', 0), this, z3.BitVecVal(1, 1)])
+    obls = [('form does not raise', out.raised)]
+    res = out.mem.o['ret'].cells[0][0]
+    fo_, sz_, al_, fields_ = nc.layout_of('REC', '_ZNK7awkward11RecordArray6lengthEv')
+    for g, q in nodeh.ptr_cases(res):
+        g = z3.And(g, z3.Not(out.raised))
+        if q.obj is None:
+            obls.append(('a form is returned', g))
+            continue
+        o = out.mem.o[q.obj]
+        vp = [str(qq.obj) for gg, qq in nodeh.ptr_cases(o.cells[q.off][0]) if qq.obj is not None]
+        if not (vp and 'N7awkward10RecordFormE' in vp[0]):
+            obls.append(('the form is a RecordForm (%s)' % (vp[:1],), g))
+            continue
+        # field names: the very list of the array (or none)
+        rl = o.cells.get(q.off + foffs[1])
+        mine = out.mem.o[this.obj].cells.get(this.off + fo_[3])
+        same = z3.BoolVal(False)
+        if rl is not None and mine is not None:
+            a_, b_ = nodeh.ptr_cases(rl[0]), nodeh.ptr_cases(mine[0])
+            same = z3.Or([z3.And(ga, gb, z3.BoolVal(qa.obj == qb.obj and _same_off(qa.off, qb.off))) for ga, qa in a_ for gb, qb in b_] + [z3.BoolVal(False)])
+        obls.append(('the form has the array\'s own field names (%s)' % ('named' if named else 'none: a tuple'), z3.And(g, z3.Not(same))))
+        b, e = o.cells.get(q.off + foffs[2]), o.cells.get(q.off + foffs[2] + 8)
+        bc = [qq for gg, qq in nodeh.ptr_cases(b[0]) if qq.obj is not None] if b else []
+        ec = [qq for gg, qq in nodeh.ptr_cases(e[0]) if qq.obj is not None] if e else []
+        if nfields == 0:
+            obls.append(('no content forms', z3.And(g, z3.BoolVal(bool(bc) and bool(ec) and not _same_off(bc[0].off, ec[0].off)))))
+            continue
+        if not bc or not ec or not isinstance(bc[0].off, int) or not isinstance(ec[0].off, int):
+            obls.append(('the content forms can be read back', g))
+            continue
+        obls.append(('%d content forms' % nfields, z3.And(g, z3.BoolVal(ec[0].off - bc[0].off != 16 * nfields))))
+        vo = out.mem.o[bc[0].obj]
+        for k in range(min(nfields, (ec[0].off - bc[0].off) // 16)):
+            c = vo.cells.get(bc[0].off + 16 * k)
+            answered = [z3.And(ob['pc'], gg, ob['first'] == BV(k * BASE)) for ob in seen for gg, qq in (nodeh.ptr_cases(c[0]) if c else []) if qq.obj == ob['item'].obj]
+            obls.append(('content form %d is what field %d answered' % (k, k), z3.And(g, z3.Not(z3.Or(answered + [z3.BoolVal(False)])))))
+
+    def replay(model, ent):
+        nm = list(names) if named else []
+        prog = ''.join(('i64 2 %d %d ' % (10 * k, 10 * k + 1)) if k % 2 == 0 else ('f64 2 0.5 1.5 ') for k in range(nfields))
+        prog += ('record %d 2 %s ' % (nfields, ' '.join(nm))) if named else ('tuple %d 2 ' % nfields)
+        kind_, got = fullnative.akrun(prog + 'formjson')
+        payload = dict(program=prog + 'formjson', native=[kind_, got])
+        prim = lambda f: f if isinstance(f, str) else (f.get('primitive') if isinstance(f, dict) else None)
+        want = ['int64' if k % 2 == 0 else 'float64' for k in range(nfields)]
+        ok = kind_ == 'OK' and isinstance(got, dict) and got.get('class') == 'RecordArray'
+        if ok:
+            cs = got.get('contents')
+            if named:
+                ok = isinstance(cs, dict) and list(cs.keys()) == nm and [prim(cs[k]) for k in nm] == want
+            else:
+                ok = isinstance(cs, list) and [prim(x) for x in cs] == want
+        if not ok:
+            return True, 'form of a %s with fields %s of int64 / float64 alternating: native library %s %s' % ('record array' if named else 'tuple array', nm or nfields, kind_, str(got)[:240]), payload
+        return False, 'native form agrees (%s)' % str(got)[:80], payload
+    return mdischarge(nc.m, 'RecordArray::form %s' % (list(names) if named else 'tuple of %d' % nfields), obls, [], replay=replay,
+                      extra=dict(bounds='field names / count concrete (case split); every field content answers with an opaque Form object'))
+
+
+def jobs_record_form(tier):
+    q = [(('a', 'b'), 2), (None, 3), ((), 0)]
+    if tier != 'quick':
+        q += [(None, 1), (('x', 'y', 'z'), 3), (None, 0), (('k',), 1)]
+    return [(h_record_form, a, 900) for a in q]
 
 
 def jobs_record_keys(tier):
